@@ -48,6 +48,8 @@ def Err.name : Err → String
   | .notInHand => "notInHand" | .emptyPile => "emptyPile" | .invalidTurn => "invalidTurn"
   | .invalidMeld => "invalidMeld" | .unpack => "unpack" | .internal => "internal" | .fuel => "fuel"
 
+deriving instance DecidableEq for Except
+
 /-- A playing card: `rank ∈ 2..14` (ace = 14), `suit ∈ 0..3` = `c d h s`. -/
 structure Card where
   rank : Nat
